@@ -68,11 +68,27 @@ def _op(o):
     return '%s %s' % ('AddH' if k == 'addh' else 'RemH', _reg(o[1:6]))
 
 
-def case_term(case):
+_PT = {'S': 0, 'A0': 1, 'A': 2, 'P0': 3, 'P': 4}
+
+
+def _ext_term(case, fired):
+    """The schedule of the other thread as the model sees it: only the hand-over points that were reached."""
+    items = []
+    for key in fired:
+        parts = key.split(':')
+        kind, n, k = _PT[parts[0]], int(parts[1]), int(parts[2]) if len(parts) > 2 else 0
+        items.append('(%d, %d, %d, [%s])' % (kind, n, k, '; '.join(_op(o) for o in case['ext'][key])))
+    return 'table_ext [%s]' % '; '.join(items)
+
+
+def case_term(case, fired=None):
     tbl = '[' + '; '.join(
         '(%s, [%s])' % (coqrun.z(int(c)), '; '.join('[' + '; '.join(_op(o) for o in sc) + ']' for sc in scs))
         for c, scs in sorted(case['beh'].items(), key=lambda kv: int(kv[0]))) + ']'
     regs = '[' + '; '.join(_reg(r) for r in case['regs']) + ']'
+    if case.get('ext'):
+        return 'obs_of (run_x (table_beh %s) (%s) 0 %s (mkSt %s %s) [])' % (
+            tbl, _ext_term(case, fired or []), coqrun.zlist(case['pkts']), regs, coqrun.zlist(case['alls']))
     return 'obs_of (run (table_beh %s) 0 %s (mkSt %s %s) [])' % (
         tbl, coqrun.zlist(case['pkts']), regs, coqrun.zlist(case['alls']))
 
@@ -227,6 +243,55 @@ def header_sweep_cases():
     return out
 
 
+def _ext_ops(rng, pool, acbs, oracle):
+    ops = []
+    for _ in range(rng.choice([1, 1, 2])):
+        x = rng.random()
+        if x < 0.45:
+            ops.append(['remh'] + list(rng.choice(pool)))
+        elif x < 0.8:
+            ops.append(['addh'] + list(rng.choice(pool)))
+        elif acbs:
+            ops.append([rng.choice(['addall', 'remall']), rng.choice(acbs)])
+    return ops
+
+
+def gen_ext_case(rng, oracle=False):
+    """A random case plus operations by ANOTHER THREAD at the hand-over points of the dispatches."""
+    case = gen_case(rng, oracle=oracle)
+    pool = [list(r) + ['hdr'] for r in case['regs']]
+    focus = case['regs'][0][0] if case['regs'] else 1
+    for c in range(1, 5):
+        pool.append([focus, 255, 0, 0, c, 'port'])
+    acbs = [ALL_BASE + i for i in range(3)] if oracle else [1, 2, ALL_BASE]
+    ext = {}
+    for n in range(len(case['pkts'])):
+        keys = ['S:%d' % n, 'A0:%d' % n, 'P0:%d' % n] + ['A:%d:%d' % (n, k) for k in (1, 2)] + ['P:%d:%d' % (n, k) for k in (1, 2, 3)]
+        for key in keys:
+            if rng.random() < 0.35:
+                ext[key] = _ext_ops(rng, pool, acbs, oracle)
+    case['ext'] = {k: v for k, v in ext.items() if v}
+    return case
+
+
+def ext_enum_cases():
+    """Small scope: registrations a, b, c on one port (+ one all-packet callback); the other thread performs one or two
+    operations at the hand-over points of the first dispatch / between the dispatches."""
+    P = 5
+    regs = [[P, 255, 0, 0, i] for i in (1, 2, 3)]
+    ops = [['remh'] + regs[0] + ['port'], ['remh'] + regs[1] + ['port'], ['remh'] + regs[2] + ['port'],
+           ['addh', P, 255, 0, 0, 4, 'port'], ['remall', ALL_BASE], ['addall', ALL_BASE + 1]]
+    points = ['S:0', 'A0:0', 'A:0:1', 'P0:0', 'P:0:1', 'P:0:2', 'P:0:3', 'S:1']
+    single = [(pt, op) for pt in points for op in ops]
+    for pt, op in single:
+        yield {'regs': [list(r) for r in regs], 'alls': [ALL_BASE], 'pkts': [0x5C, 0x51], 'beh': {}, 'ext': {pt: [op]}}
+    for i, (p1, o1) in enumerate(single):
+        for (p2, o2) in single[i + 1::7]:
+            if p1 != p2:
+                yield {'regs': [list(r) for r in regs], 'alls': [ALL_BASE], 'pkts': [0x5C, 0x51], 'beh': {},
+                       'ext': {p1: [o1], p2: [o2]}}
+
+
 def enum_cases(depth):
     """Small-scope enumeration: registrations a,b,c(,d) on one port, each callback's first script drawn from an
     alphabet of registry operations; one or two packets."""
@@ -296,11 +361,14 @@ def tie(ctx):
         cases.append(gen_case(ctx.rng, oracle=ctx.rng.random() < 0.3))
     for _ in range(ctx.scale(40, 600)):
         cases.append(gen_long_case(ctx.rng))
+    cases += list(ext_enum_cases())
+    for _ in range(ctx.scale(300, 6000)):
+        cases.append(gen_ext_case(ctx.rng, oracle=ctx.rng.random() < 0.3))
     terms, exp, ress = [], [], []
     for c in cases:
         res = drv.run_case(c)
         ress.append(res)
-        terms.append(case_term(c))
+        terms.append(case_term(c, res.get('fired')))
         exp.append(impl_obs(res))
     dis = []
     nd = 0
@@ -323,7 +391,7 @@ def tie(ctx):
         dis.append({'what': 'total disagreements', 'count': nd})
     seen = set()
     nontriv = 0
-    dist = {'cases': len(cases), 'max_raises_by_one_callback': 0, 'cases_with_10_or_more_raises_by_one_callback': 0, 'dispatcher_died': 0, 'with_raise': 0, 'with_dup_regs': 0, 'invocations': 0,
+    dist = {'cases': len(cases), 'cases_with_other_thread_operations': 0, 'other_thread_hand_overs': 0, 'max_raises_by_one_callback': 0, 'cases_with_10_or_more_raises_by_one_callback': 0, 'dispatcher_died': 0, 'with_raise': 0, 'with_dup_regs': 0, 'invocations': 0,
             'by_regs': {}, 'by_packets': {}}
     for c, r in zip(cases, ress):
         h = runner.sha(c)
@@ -336,6 +404,8 @@ def tie(ctx):
         dist['with_raise'] += 1 if any(o[0] == 'raise' for scs in c['beh'].values() for sc in scs for o in sc) else 0
         dist['with_dup_regs'] += 1 if len({tuple(x) for x in c['regs']}) < len(c['regs']) else 0
         dist['invocations'] += len(r['log'])
+        dist['cases_with_other_thread_operations'] += 1 if r.get('fired') else 0
+        dist['other_thread_hand_overs'] += len(r.get('fired') or [])
         mr = _max_raises(c, r)
         dist['max_raises_by_one_callback'] = max(dist['max_raises_by_one_callback'], mr)
         dist['cases_with_10_or_more_raises_by_one_callback'] += 1 if mr >= 10 else 0
@@ -376,12 +446,15 @@ class Spec:
                         'aadd': set()}
             self.recs.append(self.cur)
 
+    def dispatch_over(self):
+        self.cur = None             # operations between two dispatches change the table only
+
     def invoked(self, c, n):
         self.in_all_cb = c >= ALL_BASE
 
     def before_op(self, op):
         k = op[0]
-        cur = self.cur
+        cur = self.cur if self.cur is not None else {'rem': set(), 'add': set(), 'arem': set(), 'aadd': set()}
         if k == 'raise':
             return not self.in_all_cb
         self.mutations += 1
@@ -475,6 +548,9 @@ def oracle(ctx, deep=False):
     cases = corpus_cases() + header_sweep_cases() + long_fixed_cases() + list(enum_cases(1))
     for _ in range(ctx.scale(400, 6000) * (3 if deep else 1)):
         cases.append(gen_long_case(ctx.rng, oracle=True))
+    cases += list(ext_enum_cases())
+    for _ in range(ctx.scale(3000, 60000) * (3 if deep else 1)):
+        cases.append(gen_ext_case(ctx.rng, oracle=True))
     for _ in range(ctx.scale(20000, 300000) * (3 if deep else 1)):
         cases.append(gen_case(ctx.rng, oracle=True))
     seen_cls = set()
@@ -519,6 +595,10 @@ def _shrink(f):
                     changed = True
                 else:
                     i += 1
+        for key in list(case.get('ext') or {}):
+            e2 = {k: v for k, v in case['ext'].items() if k != key}
+            if attempt(dict(case, ext=e2)):
+                changed = True
         for c in list(case['beh']):
             b2 = {k: v for k, v in case['beh'].items() if k != c}
             if attempt(dict(case, beh=b2)):
